@@ -211,15 +211,28 @@ impl<'tcx> Cx<'tcx> {
         self.adts.insert(p, o.done());
     }
 
-    /// Interior-mutability census of a type: collects the leaf types through which an
-    /// `UnsafeCell` (or something opaque that might hide one) is reachable.
+    /// Interior-mutability census of a type: walks the complete field tree (local and extern ADTs,
+    /// through pointers) and collects, for every reachable `UnsafeCell`, the outermost extern ADT
+    /// that contains it (e.g. `std::sync::Mutex`, `core::sync::atomic::Atomic`); `dyn`, type
+    /// parameters, aliases and closures are reported as opaque leaves.
     fn imut_walk(&mut self, ty: Ty<'tcx>, leaves: &mut BTreeSet<String>, seen: &mut BTreeSet<String>, depth: usize) {
+        self.imut_walk2(ty, None, leaves, seen, depth)
+    }
+
+    fn imut_walk2(
+        &mut self,
+        ty: Ty<'tcx>,
+        outer: Option<String>,
+        leaves: &mut BTreeSet<String>,
+        seen: &mut BTreeSet<String>,
+        depth: usize,
+    ) {
         let tcx = self.tcx;
-        if depth > 12 {
+        if depth > 40 {
             leaves.insert(format!("depth-limit:{}", ty_s(ty)));
             return;
         }
-        let key = ty_s(ty);
+        let key = format!("{}|{}", ty_s(ty), outer.clone().unwrap_or_default());
         if !seen.insert(key) {
             return;
         }
@@ -227,36 +240,36 @@ impl<'tcx> Cx<'tcx> {
             ty::Adt(def, args) => {
                 let did = def.did();
                 if def.is_unsafe_cell() {
-                    leaves.insert("core::cell::UnsafeCell".to_string());
+                    leaves.insert(outer.unwrap_or_else(|| "core::cell::UnsafeCell".to_string()));
                     return;
                 }
-                if did.is_local() {
-                    for v in def.variants().iter() {
-                        for f in v.fields.iter() {
-                            let fty = f.ty(tcx, args);
-                            self.imut_walk(fty, leaves, seen, depth + 1);
-                        }
-                    }
+                let next_outer = if did.is_local() {
+                    None
+                } else if outer.is_some() {
+                    outer.clone()
                 } else {
-                    // extern ADT: does it contain an UnsafeCell directly (not behind a pointer)?
-                    let ident = tcx.type_of(did).instantiate_identity().skip_norm_wip();
-                    let env = TypingEnv::non_body_analysis(tcx, did);
-                    if !ident.is_freeze(tcx, env) {
-                        leaves.insert(self.dp(did));
+                    Some(self.dp(did))
+                };
+                for v in def.variants().iter() {
+                    for f in v.fields.iter() {
+                        let fty = f.ty(tcx, args);
+                        self.imut_walk2(fty, next_outer.clone(), leaves, seen, depth + 1);
                     }
-                    for a in args.iter() {
-                        if let Some(t) = a.as_type() {
-                            self.imut_walk(t, leaves, seen, depth + 1);
-                        }
+                }
+                // type-erased containers (Vec's RawVecInner, PhantomData<T>) own their type
+                // arguments without a field of that type: walk the arguments as well
+                for a in args.iter() {
+                    if let Some(t) = a.as_type() {
+                        self.imut_walk2(t, next_outer.clone(), leaves, seen, depth + 1);
                     }
                 }
             }
             ty::Ref(_, t, _) | ty::RawPtr(t, _) | ty::Slice(t) | ty::Array(t, _) | ty::Pat(t, _) => {
-                self.imut_walk(*t, leaves, seen, depth + 1)
+                self.imut_walk2(*t, outer, leaves, seen, depth + 1)
             }
             ty::Tuple(ts) => {
                 for t in ts.iter() {
-                    self.imut_walk(t, leaves, seen, depth + 1)
+                    self.imut_walk2(t, outer.clone(), leaves, seen, depth + 1)
                 }
             }
             ty::Dynamic(..) => {
